@@ -31,7 +31,24 @@ var (
 	errPrep  = errors.New("prep-failed")
 	errPost  = errors.New("post-failed")
 	errFb    = errors.New("fallback-failed")
-	errExec  = func() []error {
+	// errExecMixed: what a failing attempt returns in the lifecycle scenarios.  Every third one
+	// wraps context.DeadlineExceeded / context.Canceled although the run's own context is alive
+	// (a per-attempt timeout inside exec): to the framework it is a failed attempt like any other.
+	errExecMixed = func() []error {
+		var l []error
+		for i := 0; i < 12; i++ {
+			switch i % 3 {
+			case 0:
+				l = append(l, fmt.Errorf("exec-failed-attempt-%d (inner timeout): %w", i, context.DeadlineExceeded))
+			case 1:
+				l = append(l, fmt.Errorf("exec-failed-attempt-%d", i))
+			default:
+				l = append(l, fmt.Errorf("exec-failed-attempt-%d (inner cancel): %w", i, context.Canceled))
+			}
+		}
+		return l
+	}()
+	errExec = func() []error {
 		var l []error
 		for i := 0; i < 12; i++ {
 			l = append(l, fmt.Errorf("exec-failed-attempt-%d", i))
@@ -65,7 +82,7 @@ func fullMenu(prepVals []any) func(h *H, c call) []answer {
 			return append(m, answer{err: errPrep})
 		case pExec:
 			// a failing attempt also returns a (junk) value: it must never reach a later phase
-			return []answer{{val: evPtr}, {val: junkPtr, err: errExec[c.attempt]}, {val: nil}, {val: evMap}, {val: evResult}}
+			return []answer{{val: evPtr}, {val: junkPtr, err: errExecMixed[c.attempt]}, {val: nil}, {val: evMap}, {val: evResult}}
 		case pFallback:
 			return []answer{{val: fvPtr}, {err: errFb}, {val: nil}}
 		default:
@@ -208,6 +225,15 @@ func genC01(tier string) []Scenario {
 					}
 				}
 			}
+		}
+	}
+	// the last callback set for a phase is the one that runs: every function-style route with each
+	// phase first given a callback of the other style
+	for _, kind := range []int{kFuncR, kFuncA, kFuncRB, kFuncAB, kFuncMix} {
+		for place := 0; place < 3; place += 2 {
+			sp := &spec{id: "n", kind: kind, n: 2, fb: true, replaced: true}
+			name := fmt.Sprintf("lifecycle callbacks-replaced kind=%s N=2 fallback=true place=%s", kindNames[kind], placeName(place))
+			out = append(out, lifecycleScenario(name, sp, place, fullMenu(prepVals[:2])))
 		}
 	}
 	return out
